@@ -148,14 +148,32 @@ func roleOf(t *Term) Role {
 		if found[i].Auction == "?derive" {
 			id := ""
 			t.Walk(func(x *Term) bool {
-				if x.Op == "call" && x.Name == "fmt.Sprint" && len(x.Args) == 1 {
+				// the decimal rendering of the id, however it is spelled
+				if x.Op == "call" && (x.Name == "fmt.Sprint" || x.Name == "fmt.Sprintf" || x.Name == "strconv.FormatUint" || x.Name == "strconv.FormatInt" || x.Name == "strconv.Itoa") && len(x.Args) >= 1 {
 					var arg *Term
-					x.Args[0].Walk(func(y *Term) bool {
-						if y.Op == "fset" && y.Name == "[0]" {
-							arg = y.Args[0]
+					for _, a := range x.Args {
+						a.Walk(func(y *Term) bool {
+							if arg != nil {
+								return false
+							}
+							switch {
+							case y.Op == "fset" && strings.HasPrefix(y.Name, "["):
+								if y.Args[0].Op != "const" {
+									arg = y.Args[0]
+								}
+								return arg == nil
+							case y.Op == "const", y.Op == "slice", y.Op == "new", y.Op == "upd", y.Op == "zero":
+								return true
+							case y.Op == "call" && (strings.HasSuffix(y.Name, "convert") || y.Name == "convert"):
+								return true
+							}
+							arg = y
+							return false
+						})
+						if arg != nil {
+							break
 						}
-						return arg == nil
-					})
+					}
 					if arg != nil {
 						id = auctionIdentity(arg)
 					}
@@ -301,7 +319,9 @@ func collectTransfers(w *World, tm *Terms, entries map[string]*ssa.Function) []T
 	rolesTM = tm
 	for _, name := range sortedKeys(entries) {
 		c := &transferCollector{w: w, entry: name, out: map[string]TransferInst{}}
-		NewExplorer(w, tm, c).Run(entries[name], 0)
+		x := NewExplorer(w, tm, c)
+		x.TrackPhi = true // a transfer whose payee is selected by an earlier branch is described per path
+		x.Run(entries[name], 0)
 		for _, k := range sortedKeys(c.out) {
 			all = append(all, c.out[k])
 		}
